@@ -26,6 +26,7 @@ RULE = ("random parent domains (1-5 parents, inner lists of length 0-4 drawn wit
         "{none | elem.n>t | parent.k>t | both | elem joined with another variable | three conditions joining the element, the parent and two further variables | or_ / and_ / several / negated conditions on the element} x caching on/off; results compared as "
         "multisets of identities. Non-trivial: at least two parents have different non-empty lists and the result is "
         "neither empty nor everything. distinct by structural hash.")
+RULE += " Size cases (every tier): 25-50 parents with inner collections of 8-24 plain numbers, two conditions on the element, optionally three tiers enumerated outside the flatten; evaluated twice."
 LEVEL_TEXT = ("Reference-model monitoring: rows of the real flatten query compared by identity and multiplicity with the "
               "nested-loop UNNEST written in plain Python.")
 LEVEL_NOTE = "Trusted: the oracle (a two-line nested loop)."
